@@ -2634,6 +2634,49 @@ class C15(Prop):
             c = Case('s%d' % i, gens.render_path(steps), [doc])
             cases.append(c)
             expect[c.id] = single_path_expectation(steps, doc)
+        # C15_first_failing_step_from_text: paths of name steps written as Coq's chain_path (driver-confirmed), failing at a chosen depth
+        # by a missing member or by a value that is not an object; the expected error comes from walking the document
+        for i in range(max(60, n // 20)):
+            lc = gen_loc_chain(g)
+            if lc is None:
+                continue
+            doc, text, spec, loc, val = lc
+            # keep the leading name steps, then break the path: a missing name, or one more name under a non-object
+            k = 0
+            while k < len(spec) and spec[k][0] != 1:
+                k += 1
+            spec = spec[:k]
+            if not spec:
+                continue
+            # re-walk to know the text of each kept step and the value reached
+            cur, parts = doc, []
+            t_ = text[1:]
+            for st in spec:
+                key = ''.join(chr(c) for c in st[1]).encode('utf-8')
+                if st[0] == 0:
+                    seg = '.' + gens.esc_dot(key).decode('utf-8')
+                else:
+                    q_ = chr(st[0])
+                    seg = '[' + q_ + ''.join('\\' + ch if ch in (q_, '\\') else ('\\u%04x' % ord(ch) if ord(ch) < 0x20 else ch) for ch in key.decode('utf-8')) + q_ + ']'
+                if not t_.startswith(seg):
+                    parts = None
+                    break
+                parts.append(seg)
+                t_ = t_[len(seg):]
+                cur = [x for kk, x in cur[1] if kk == key][-1]
+            if parts is None:
+                continue
+            extra_key = r.choice([b'zz9', b'nope', b'a'])
+            style = r.choice("'\".")
+            seg = ('.' + extra_key.decode()) if style == '.' else '[%s%s%s]' % (style, extra_key.decode(), style)
+            if cur[0] == 'o' and any(kk == extra_key for kk, _ in cur[1]):
+                continue
+            spec2 = spec + [(0 if style == '.' else ord(style), [ord(ch) for ch in extra_key.decode()])]
+            c = Case('nm%d' % i, ('$' + ''.join(parts) + seg).encode('utf-8'), [doc], meta={'family': 'coq-name-path-error', 'nsteps': len(spec2)})
+            c.keyc = spec2
+            cases.append(c)
+            expect[c.id] = ('mne', seg.encode('utf-8')) if cur[0] == 'o' else ('tum', seg.encode('utf-8'), 'object', cur)
+            keyc_cases = True
         # several branches failing in DIFFERENT functions of a chain: the error names the function furthest along the path,
         # whatever the order of the branches
         for i in range(max(30, n // 40)):
@@ -2659,6 +2702,8 @@ class C15(Prop):
                 res.violation('concrete', sig_of(c, 'error-vs-model'), 'error reported for %r differs from the model' % (c.path,), c, expected=b, observed=a)
             if '!badtext' in a:
                 res.violation('concrete', sig_of(c, 'error-text'), 'Error() text does not match the error fields: %r' % (c.path,), c, observed=a)
+            if c.keyc and m.get('P') == 'ok' and m.get('KP') != '1':
+                res.violation('broken-correspondence', 'harness:chain_path', 'the path sent is not Coq chain_path of its steps', c)
             if c.id in expect:
                 e = expect[c.id]
                 if e is None:
